@@ -49,6 +49,27 @@ prints:
                                swallowed and no block / attribute is skipped (regenerated `errFlow`, loop facts);
 * `C16_readers_nil_blind`     no reader of `AmmoConfig` tells a nil collection from an empty one (regenerated).
 
+Round 3 — in front of the evaluation and behind the decoding:
+
+* `C16_format_by_extension`, `C16_format_current`, `C16_format_twins`   `ReadAmmoConfig` selects the front-end by the file
+                               name: for ANY table of cases with the decidable `extSelects`, any base name and any
+                               spelling of the extension that the name mapping (`strings.ToLower`, or nothing) turns into
+                               `.hcl` / `.yaml`, the file reaches `ParseHCLFile` + `ConvertHCLToAmmo` / `ParseAmmoConfig`;
+                               the regenerated switch has `extSelects` for both, and every case tests the same value
+                               (`C16_ext_subject`);
+* `C16_locals_blocks_all_count` (+ `_statement`, `_counterexample`, `C16_locals_blocks_current`)   an accepted file
+                               denotes what ALL its `locals` blocks and its body say — true when `ParseHCLFile` returns
+                               the diagnostics of `PartialContent`, FALSE when it ignores them: a `locals` block written
+                               with a label is dropped by hcl with an error that nobody reads (finding `dropped-locals`,
+                               repaired: `C16_locals_blocks_all_count_current` — the current source returns them);
+                               `C16_labelled_locals_refused`, `C16_plain_locals_unaffected`;
+* `C16_front_ends_stateless`, `C16_provider_flow`   regenerated: the front-ends only read package-level variables (no
+                               cache / pool / hoisted parser: a file is decoded independently of the files before it),
+                               and the providers hand the file name to `ReadAmmoConfig` only and build storage and ammo
+                               from its result only;
+* `C16_durations_exact`, `C16_durations_wrap`   waiting times and sleeps are int64 nanoseconds: exact up to
+                               9 223 372 036 854 ms (292 years), wrapping beyond — for both front-ends alike.
+
 What a YAML scalar's characters go through inside yaml.v2 / hcl (quoting, escapes, NFC normalisation of HCL strings)
 is library behaviour: tied by the differential harness only (see notes/C16.md).
 -/
@@ -56,9 +77,11 @@ import Pandora.Model.C16
 import Pandora.Model.C16Locals
 import Pandora.Model.C16Ammo
 import Pandora.Model.C16Frozen
+import Pandora.Model.C16Src
 import Pandora.Spec.C16
 import Pandora.Proofs.C16
 import Pandora.Proofs.C16Locals
+import Pandora.Proofs.C16Src
 import Pandora.Bridge.HclYaml
 
 namespace Pandora.Props.C16
@@ -326,6 +349,139 @@ theorem C16_ammo_identical_current (d : V) :
     ammoOf (decode current (marshal current (complete current d))) = ammoOf (decode current (yamlDoc current d)) :=
   C16_ammo_identical current unread C16_tables_compat d
 
+/-! ### the front-end is selected by the file name (`ReadAmmoConfig`) -/
+
+/-- For ANY table of switch cases with `extSelects … ext parser`, any mapping `lc` applied to the characters of the name
+before the tests, any base name `s` and any spelling `e` of the extension that `lc` turns into `ext`: the file
+`s ++ e` runs `parser` — whatever stands in front of the extension (other extensions, dots, upper case, unicode). -/
+theorem C16_format_by_extension (lc : Char → Char) (cases : List ExtCase) (ext parser : String)
+    (h : extSelects cases ext parser = true) (s e : List Char) (he : e.map lc = ext.toList) :
+    frontEnd lc cases (s ++ e) = routeOf parser :=
+  frontEndOf_of_extSelects cases ext parser h _ (suffix_of_mapped lc s e ext.toList he)
+
+/-- the regenerated switch: a name ending in (any spelling the mapping accepts of) `.hcl` is parsed by
+`ParseHCLFile` + `ConvertHCLToAmmo`, one ending in `.yaml` by `ParseAmmoConfig` -/
+theorem C16_format_current (lc : Char → Char) (s e : List Char) :
+    (e.map lc = ".hcl".toList → frontEnd lc Gen.HclYaml.extCases (s ++ e) = .hcl) ∧
+    (e.map lc = ".yaml".toList → frontEnd lc Gen.HclYaml.extCases (s ++ e) = .yaml) :=
+  ⟨fun he => C16_format_by_extension lc _ ".hcl" _ Pandora.Bridge.HclYaml.ext_selects.1 s e he,
+   fun he => C16_format_by_extension lc _ ".yaml" _ Pandora.Bridge.HclYaml.ext_selects.2 s e he⟩
+
+/-- the two renderings of one description, stored under one base name with extensions in the same style, each reach
+their own front-end — under the name mapping of the current source (`subjectLc`: lower-casing when `extSubject` has
+`strings.ToLower`, nothing otherwise) -/
+theorem C16_format_twins (s eh ey : List Char)
+    (hh : eh.map Pandora.Bridge.HclYaml.subjectLc = ".hcl".toList)
+    (hy : ey.map Pandora.Bridge.HclYaml.subjectLc = ".yaml".toList) :
+    frontEnd Pandora.Bridge.HclYaml.subjectLc Gen.HclYaml.extCases (s ++ eh) = .hcl ∧
+    frontEnd Pandora.Bridge.HclYaml.subjectLc Gen.HclYaml.extCases (s ++ ey) = .yaml :=
+  ⟨(C16_format_current _ s eh).1 hh, (C16_format_current _ s ey).2 hy⟩
+
+/-- regenerated: every case of the switch tests the same value, and it is the `fileName` parameter — at most
+lower-cased and reduced to its base name -/
+theorem C16_ext_subject :
+    Gen.HclYaml.extSubject.all Pandora.Bridge.HclYaml.subjectStepOK = true ∧
+    Gen.HclYaml.extSubject.getLast? = some "param:fileName" := Pandora.Bridge.HclYaml.ext_subject
+
+/-! ### every `locals` block of an accepted file counts (`PartialContent`) -/
+
+/-- an accepted file denotes what ALL its `locals` blocks (in source order) and its body say -/
+def C16_locals_blocks_all_count_statement (strict : Bool) : Prop :=
+  ∀ (T : Tables) (F : List (String × String)) (s : HclSrc) (d : V),
+    srcDescription T strict F s = some d → hclDescription T F s.allLocals = some d
+
+/-- true when `ParseHCLFile` returns the diagnostics of `PartialContent` -/
+theorem C16_locals_blocks_all_count : C16_locals_blocks_all_count_statement true := by
+  intro T F s d h
+  unfold srcDescription at h
+  cases hs : splitLocals true s with
+  | none => simp [hs] at h
+  | some f =>
+    rw [hs] at h
+    have := (splitLocals_strict s f hs).2
+    rw [this] at h
+    exact h
+
+/-- a file with a labelled `locals` block is refused under the strict reading -/
+theorem C16_labelled_locals_refused (T : Tables) (F : List (String × String)) (s : HclSrc)
+    (h : s.blocks.all LBlock.plain = false) : srcDescription T true F s = none := by
+  unfold srcDescription splitLocals
+  simp [h]
+
+/-- a well-formed file (no labelled block) is not affected by the reading -/
+theorem C16_plain_locals_unaffected (T : Tables) (F : List (String × String)) (strict : Bool) (s : HclSrc)
+    (h : s.blocks.all LBlock.plain = true) : srcDescription T strict F s = hclDescription T F s.allLocals := by
+  unfold srcDescription
+  rw [splitLocals_plain strict s h]
+  rfl
+
+/-- the file of the counterexample: `locals { a = "r" }  locals "prod" { a = "q" }  scenario "s" { requests = [local.a] }` -/
+def droppedSrc : HclSrc :=
+  ⟨[⟨[], [("a", .str "r")]⟩, ⟨["prod"], [("a", .str "q")]⟩],
+   .map [("scenario", .seq [.map [("name", .str "s"), ("requests", .seq [.loc "a"])]])]⟩
+
+/-- FALSE when the diagnostics are ignored: the labelled block disappears, the file is accepted with the EARLIER
+value of `a` although the file says `q` -/
+theorem C16_locals_blocks_all_count_counterexample : ¬ C16_locals_blocks_all_count_statement false := by
+  intro h
+  have h1 : srcDescription Frozen.tables false docFunctions droppedSrc =
+      some (.map [("scenario", .seq [.map [("name", .str "s"), ("requests", .seq [.str "r"])]])]) := by rfl
+  have h2 := h Frozen.tables docFunctions droppedSrc _ h1
+  have h3 : hclDescription Frozen.tables docFunctions droppedSrc.allLocals =
+      some (.map [("scenario", .seq [.map [("name", .str "s"), ("requests", .seq [.str "q"])]])]) := by rfl
+  rw [h3] at h2
+  simp at h2
+
+/-- the current source (regenerated error flow of `ParseHCLFile`): the statement holds exactly when the diagnostics of
+`PartialContent` are returned -/
+theorem C16_locals_blocks_current :
+    (Pandora.Bridge.HclYaml.schemaDiagsChecked = true →
+      C16_locals_blocks_all_count_statement Pandora.Bridge.HclYaml.schemaDiagsChecked) ∧
+    (Pandora.Bridge.HclYaml.schemaDiagsChecked = false →
+      ¬ C16_locals_blocks_all_count_statement Pandora.Bridge.HclYaml.schemaDiagsChecked) := by
+  constructor
+  · intro h; rw [h]; exact C16_locals_blocks_all_count
+  · intro h; rw [h]; exact C16_locals_blocks_all_count_counterexample
+
+/-- the current source returns the diagnostics of `PartialContent` (regenerated error flow), so for it an accepted file
+denotes what ALL its `locals` blocks and its body say, and a file with a labelled block is refused -/
+theorem C16_locals_blocks_all_count_current :
+    Pandora.Bridge.HclYaml.schemaDiagsChecked = true ∧
+    C16_locals_blocks_all_count_statement Pandora.Bridge.HclYaml.schemaDiagsChecked :=
+  ⟨Pandora.Bridge.HclYaml.schema_diags_checked,
+   C16_locals_blocks_current.1 Pandora.Bridge.HclYaml.schema_diags_checked⟩
+
+/-! ### no state between files; the providers see the file only through `AmmoConfig` (regenerated) -/
+
+theorem C16_front_ends_stateless :
+    (Gen.HclYaml.pkgStateUses.all fun u => u.2.2 == "read") = true := Pandora.Bridge.HclYaml.stateless
+
+theorem C16_provider_flow :
+    Pandora.Bridge.HclYaml.sameSet (Pandora.Bridge.HclYaml.flowOf "http") Pandora.Bridge.HclYaml.flowExpected = true ∧
+    Pandora.Bridge.HclYaml.sameSet (Pandora.Bridge.HclYaml.flowOf "grpc") Pandora.Bridge.HclYaml.flowExpected = true :=
+  Pandora.Bridge.HclYaml.provider_flow
+
+/-! ### waiting times and sleeps are int64 nanoseconds -/
+
+/-- up to 9 223 372 036 854 ms (292 years) in either direction `time.Millisecond * time.Duration(ms)` is exact: the
+gun waits what the description says -/
+theorem C16_durations_exact (ms : Int) (h : -9223372036854 ≤ ms ∧ ms ≤ 9223372036854) :
+    msToNs ms = ms * 1000000 ∧ nsToMs (msToNs ms) = ms := by
+  have h1 : msToNs ms = ms * 1000000 := by
+    unfold msToNs wrap64
+    omega
+  refine ⟨h1, ?_⟩
+  rw [h1]
+  unfold nsToMs
+  exact Int.mul_tdiv_cancel ms (by decide)
+
+/-- whatever the number: the stored duration is a signed 64-bit value congruent to `ms · 10^6` modulo 2^64 -/
+theorem C16_durations_wrap (ms : Int) :
+    -9223372036854775808 ≤ msToNs ms ∧ msToNs ms < 9223372036854775808 ∧
+    (msToNs ms - ms * 1000000) % 18446744073709551616 = 0 := by
+  unfold msToNs wrap64
+  omega
+
 /-! ### every field survives the conversion -/
 
 /-- Under `compatS`, for a struct `sh` feeding config struct `sc`, and any field `k = x` the user wrote:
@@ -532,9 +688,11 @@ example : applyFn "CoalesceListFunc" [.seq [], .seq [.str "a"]] = some (.seq [.s
     applyFn "IndexFunc" [.seq [.str "a", .str "b", .str "c"], .int 4] = none := ⟨rfl, rfl, rfl, rfl⟩
 
 /-- the ammo of the documentation-style file: one scenario, the step twice with 10 ms sleep, 5 ms more on the second
-copy, then once more -/
-example : (evalFile fns docFile).map (fun d => ammoOf (decode current (marshal current (complete current d)))) =
-    some (some [⟨"s", 0, [("list_req", 10), ("list_req", 15), ("list_req", 0)]⟩]) := by decide
+copy, then once more (durations shown in ms) -/
+example : (evalFile fns docFile).map (fun d => (ammoOf (decode current (marshal current (complete current d)))).map
+      (·.map fun a => (a.name, nsToMs a.minWait, a.steps.map fun p => (p.1, nsToMs p.2)))) =
+    (some (some [("s", 0, [("list_req", 10), ("list_req", 15), ("list_req", 0)])]) :
+      Option (Option (List (String × Int × List (String × Int))))) := by rfl
 
 /-- weights 2, 4, 6 → 1 + 2 + 3 ammo; a step reference that names no step, a `sleep` with nothing before it and a
 negative weight refuse the file -/
@@ -543,6 +701,41 @@ example : (decodeAmmo ["r"] [⟨"a", 2, 0, ["r"]⟩, ⟨"b", 4, 0, ["r"]⟩, ⟨
 example : decodeAmmo ["r"] [⟨"a", 1, 0, ["q"]⟩] = none := by decide
 example : decodeAmmo ["r"] [⟨"a", 1, 0, ["sleep(3)", "r"]⟩] = none := by decide
 example : decodeAmmo ["r"] [⟨"a", -1, 0, ["r"]⟩] = none := by decide
+
+/-! ### round 3: file names, labelled `locals` blocks, durations -/
+
+-- names in every style reach their front-end under the regenerated switch (lower-casing as the source does it)
+example : frontEnd asciiLower Gen.HclYaml.extCases "AMMO.HCL".toList = .hcl ∧
+    frontEnd asciiLower Gen.HclYaml.extCases "a.yaml.hcl".toList = .hcl ∧
+    frontEnd asciiLower Gen.HclYaml.extCases "a.hcl.Yaml".toList = .yaml ∧
+    frontEnd asciiLower Gen.HclYaml.extCases ".hcl".toList = .hcl ∧
+    frontEnd asciiLower Gen.HclYaml.extCases "ammo.json".toList = .refuse := by decide
+-- the hypotheses of `C16_format_twins` are met by mixed-case extensions
+example : "..HcL".toList.map asciiLower = "..hcl".toList ∧ ".YAML".toList.map asciiLower = ".yaml".toList := by decide
+-- `extSelects` is not vacuous: a switch that tests `.yaml` by a shorter, comparable literal first, or has a prefix
+-- test in front, does not have it — and a name exists that such a switch sends the wrong way
+example : extSelects [("HasSuffix", "l", "ParseAmmoConfig"), ("HasSuffix", ".hcl", "ParseHCLFile+ConvertHCLToAmmo")]
+      ".hcl" "ParseHCLFile+ConvertHCLToAmmo" = false ∧
+    frontEndOf [("HasSuffix", "l", "ParseAmmoConfig"), ("HasSuffix", ".hcl", "ParseHCLFile+ConvertHCLToAmmo")]
+      "a.hcl".toList = .yaml := by decide
+example : extSelects [("HasPrefix", ".yml", "ParseAmmoConfig"), ("HasSuffix", ".hcl", "ParseHCLFile+ConvertHCLToAmmo")]
+      ".hcl" "ParseHCLFile+ConvertHCLToAmmo" = false ∧
+    frontEndOf [("HasPrefix", ".yml", "ParseAmmoConfig"), ("HasSuffix", ".hcl", "ParseHCLFile+ConvertHCLToAmmo")]
+      ".yml.hcl".toList = .yaml := by decide
+
+-- the labelled block of `droppedSrc`: refused under the strict reading, silently dropped otherwise
+example : srcDescription Frozen.tables true docFunctions droppedSrc = none := by rfl
+example : (splitLocals false droppedSrc).map (·.locals.length) = some 1 ∧ droppedSrc.allLocals.locals.length = 2 := by
+  decide
+-- a well-formed file: hypothesis of `C16_plain_locals_unaffected`
+example : (⟨[⟨[], [("a", .str "r")]⟩], .map []⟩ : HclSrc).blocks.all LBlock.plain = true := by rfl
+
+-- durations: exact inside the range, wrapping outside (Go: `time.Millisecond * time.Duration(9223372036855)` < 0)
+example : msToNs 250 = 250000000 ∧ nsToMs (msToNs 250) = 250 ∧ msToNs 9223372036855 = -9223372036854551616 ∧
+    nsToMs (msToNs 9223372036855) = -9223372036854 ∧ nsToMs (msToNs (-1)) = -1 := by decide
+-- a step with a sleep and two `sleep(…)` entries after it: the sleeps add up on the last copy
+example : (decodeAmmo ["r"] [⟨"a", 1, 7, ["r(2, 5)", "sleep(3)", "sleep(4)"]⟩]).map
+      (·.map fun a => (nsToMs a.minWait, a.steps.map fun p => nsToMs p.2)) = some [(7, [5, 12])] := by decide
 
 /-! ### `compat` is not vacuous: tables that break it do break the equivalence -/
 
